@@ -163,11 +163,19 @@ def identify(o: Oracle, family_="A"):
             p0[:T1] = mid[k]
             rows[v] = rows2(p0, o.labels, family_)
         lab = o.draw(rows)
+        allowed = [0, 1] if family_ == "A" else [0, 2]  # the third label has probability exactly zero in every query row
         for k, v in enumerate(o.vars):
+            if not np.isin(lab[v], allowed).all():
+                t, i = [int(x) for x in np.argwhere(~np.isin(lab[v], allowed))[0]]
+                raise ZeroProbabilityDrawn(f"variable {v}, period {t}->{t + 1}, agent {i}: label {int(lab[v][t, i])} drawn although its probability in the selected row {rows[v][t, i].tolist()} is 0")
             zero = lab[v] == 0
             hi[k] = np.where(zero, mid[k], hi[k])
             lo[k] = np.where(zero, lo[k], mid[k])
     return lo, hi
+
+
+class ZeroProbabilityDrawn(Exception):
+    pass
 
 
 def run_case(case):
@@ -265,6 +273,9 @@ def run_case(case):
         for v in o.vars:
             if not np.isin(f1[v].to_numpy(), np.arange(o.labels)).all() and not viols:
                 viols.append(violation("labels", "grid", "DRAW", f"{v} takes values outside its grid"))
+    except ZeroProbabilityDrawn as e:
+        viols.append(violation("inverse-cdf", "zero-probability", "DRAW", str(e)))
+        return outcome(status="violation", violations=viols, digest="zero", transitions=o.calls)
     except Exception as e:
         import traceback
 
